@@ -23,9 +23,13 @@ macro_rules! with_prop {
             "C11" => { let $p = &props::c11::C11; $body }
             "C12" => { let $p = &props::c12::C12; $body }
             "C13" => { let $p = &props::c13::C13; $body }
+            "C14" => { let $p = &props::c14::C14; $body }
             "C15" => { let $p = &props::c15::C15; $body }
             "C16" => { let $p = &props::c16::C16; $body }
             "C17" => { let $p = &props::c17::C17; $body }
+            "C18" => { let $p = &props::c18::C18; $body }
+            "C19" => { let $p = &props::c19::C19; $body }
+            "C20" => { let $p = &props::c20::C20; $body }
             _ => { eprintln!("unknown property {}", $id); std::process::exit(2); }
         }
     };
@@ -52,6 +56,32 @@ fn main() {
             let id = args[2].as_str();
             let code = with_prop!(id, p => engine::main_run(p, tier, seed, only));
             std::process::exit(code);
+        }
+        "gen-corpus" => {
+            // deterministic seed corpus for the fuzz targets and the C14 corpus-replay stage
+            let root = args.get(2).cloned().unwrap_or_else(|| "/verif/corpus".to_string());
+            let _ = std::fs::create_dir_all(format!("{root}/decode"));
+            let _ = std::fs::create_dir_all(format!("{root}/proto"));
+            let mut n = 0;
+            for (si, s) in fv::suites::ALL_SUITES.iter().enumerate() {
+                for (sel, bytes) in fv::fuzz_entry::corpus_of(*s) {
+                    let mut d = vec![si as u8, sel];
+                    d.extend_from_slice(&bytes);
+                    std::fs::write(format!("{root}/decode/{}-{:03}.bin", s.name(), sel), d).unwrap();
+                    n += 1;
+                }
+                for e in 0..fv::fuzz_entry::N_ENTRIES {
+                    for w in 0..2u8 {
+                        let mut sm = fv::tape::Sm(((si as u64) << 16) | ((e as u64) << 8) | w as u64);
+                        let mut d = vec![si as u8, w, e];
+                        d.extend(sm.bytes(24 + (e as usize % 5) * 8));
+                        std::fs::write(format!("{root}/proto/{}-{:02}-{}.bin", s.name(), e, w), d).unwrap();
+                        n += 1;
+                    }
+                }
+            }
+            println!("wrote {n} corpus files under {root}");
+            std::process::exit(0);
         }
         "c13-restart" => {
             std::process::exit(props::c13_restart::child_main(&args[2..]));
